@@ -90,3 +90,34 @@ fn context_reused_across_unrelated_positions_reports_exact_minimax() {
         }
     }
 }
+
+/// forced mates inside the horizon, one context reused along the game: the same mated position is met at different
+/// remaining depths in successive searches, and the mate score depends on the remaining depth (quicker mates are
+/// better) - so nothing keyed by the position alone may carry a mate score from one search to the next
+/// (added after seed r12_C08: a leaf-score memo keyed without the depth)
+#[test]
+fn reused_context_along_forced_mates_reports_exact_minimax() {
+    let games: Vec<(&str, Board)> = vec![
+        ("rook ladder, White mates in two", setup(&[(G1, Piece::King, Color::White), (A6, Piece::Rook, Color::White), (B5, Piece::Rook, Color::White), (E8, Piece::King, Color::Black)], Color::White)),
+        ("rook ladder, Black mates in two", setup(&[(B8, Piece::King, Color::Black), (H3, Piece::Rook, Color::Black), (G4, Piece::Rook, Color::Black), (D1, Piece::King, Color::White)], Color::Black)),
+        ("back rank, queen sacrifice", setup(&[(G1, Piece::King, Color::White), (E1, Piece::Rook, Color::White), (E2, Piece::Queen, Color::White),
+                                               (G8, Piece::King, Color::Black), (F7, Piece::Pawn, Color::Black), (G7, Piece::Pawn, Color::Black), (H7, Piece::Pawn, Color::Black), (A8, Piece::Rook, Color::Black)], Color::White)),
+        ("queen and king, mate in two", setup(&[(F6, Piece::King, Color::White), (A1, Piece::Queen, Color::White), (H8, Piece::King, Color::Black)], Color::White)),
+        ("defender to move in a mating net", setup(&[(G1, Piece::King, Color::White), (A6, Piece::Rook, Color::White), (B7, Piece::Rook, Color::White), (E8, Piece::King, Color::Black)], Color::Black)),
+    ];
+    let mut mates_met = 0;
+    for (name, b0) in games.iter() {
+        for depth in [3u8, 4u8] {
+            let mut b = b0.clone();
+            let mut ctx = SearchContext::new(depth);
+            for ply in 0..6 {
+                let label = format!("{} (depth {}, ply {})", name, depth, ply);
+                match check(&label, &mut b, &mut ctx, depth) {
+                    Some(m) => { m.apply(&mut b).unwrap(); b.toggle_turn(); }
+                    None => { mates_met += 1; break; }
+                }
+            }
+        }
+    }
+    assert!(mates_met >= 6, "only {} of the games ended within six plies (vacuous)", mates_met);
+}
